@@ -32,7 +32,8 @@ FIX_COMMITS = ['c5b9684 (C05 DataReader EOD==0)', 'c3bb002 (C17 ESC prefix on 1x
                '925db17 (C06 interrupted send repeated by the next flush)',
                '37be052 (C12 stale schedule entry of a message enqueue() attempts itself)',
                'c6ba4dd (C11 AUTH keyword without mechanisms)', '38dc11a (C11 non-ASCII SASL mechanism name)',
-               'f879e3b (C11 one SASL challenge too many)', '0d7f2d5 (C11 null MX / unconnectable exchange name)']
+               'f879e3b (C11 one SASL challenge too many)', '0d7f2d5 (C11 null MX / unconnectable exchange name)',
+               '1965fff (C02 relay error carrying a non-error reply passed on by the edges)']
 
 ENGINES = [
     {'name': 'runner', 'path': 'vf/runner.py', 'serves_properties': [],
